@@ -37,6 +37,10 @@ type svVotePre struct {
 	plainValidators bool
 }
 
+// svZeroRecordsInLean: the reduced pre-states of the generic second-batch harnesses take the
+// zero-power validator records too (set by the C02 / C03 harnesses, where they matter)
+var svZeroRecordsInLean bool
+
 var svPowerTables = [][]int64{{1, 1, 1}, {1, 1, 2}, {33, 33, 34}, {49, 2, 49}}
 
 // svPreVote: proposal svPropID in a given stage with a snapshot of up to 3
@@ -112,7 +116,7 @@ func svPreVote(pre *svVotePre, kind int) func(e *svEnv) {
 		for i := 0; i < e.n; i++ {
 			pt := svParty_(i)
 			isVal := i < 2
-			if i >= 2 && (!svLean || kind == 2) && !pre.plainValidators {
+			if i >= 2 && (!svLean || (kind == 2 && svZeroRecordsInLean)) && !pre.plainValidators {
 				switch sv.Choice("prop.validator"+svPartyName(i), 3) {
 				case 0:
 					isVal = !svLean
@@ -161,7 +165,7 @@ func svPreVote(pre *svVotePre, kind int) func(e *svEnv) {
 		}
 		// B may have unstaked everything since the snapshot was taken: its vote record keeps
 		// the snapshot power, its validator record (kept for a few blocks) has none
-		if kind == 2 && !pre.plainValidators && sv.Choice("prop.bUnstakedSinceTheSnapshot", 2) == 1 {
+		if kind == 2 && !pre.plainValidators && (!svLean || svZeroRecordsInLean) && sv.Choice("prop.bUnstakedSinceTheSnapshot", 2) == 1 {
 			pt := svParty_(1)
 			z := identity.NewValidator(pt.Addr, pt.Addr, pt.Pub, pt.Pub, *balance.NewAmount(0), "nB")
 			z.Power = 0
